@@ -143,10 +143,10 @@ Section Eval.
           destruct HI as [F2 [Hy HI]]. split; [eapply frame_trans; eauto|]. split; auto.
           intros th Ht. specialize (HI th Ht).
           destruct (tv th v) eqn:Etv.
-          * destruct HI as [Ha Hall]. split; auto. intros y [<-|Hy']; auto.
+          * destruct HI as [Ha Hall]. split; auto. intros y [<-|Hy']; [|auto].
             eapply J_mono; [apply (fr_wf _ _ _ _ _ Fx)|apply (fr_ext _ _ _ _ _ F2)|apply (fr_le _ _ _ _ _ F2)|].
             apply (Jx th). eapply trusted_ext; [apply (fr_ext _ _ _ _ _ F2)|]. simpl. exact Ht.
-          * destruct HI as [HI|[y [Hy' HJ]]]; [left; auto|right]. exists y. split; auto. right; auto.
+          * destruct HI as [HI|[y [Hy' HJ]]]; [left; auto|right]. exists y. split; [right; auto|auto].
         + (* No *)
           split; auto. split; [discriminate|].
           intros th Ht. simpl. right. exists x. split; [left; auto|]. apply (Jx th). exact Ht.
@@ -161,10 +161,10 @@ Section Eval.
             apply (Jx th). eapply trusted_ext; [apply (fr_ext _ _ _ _ _ F2)|]. exact Ht'. }
           destruct (tv th v) eqn:Etv.
           * destruct HI as [Ha Hall]. specialize (Ha eq_refl). subst th.
-            split; auto. intros y [<-|Hy']; auto. apply Jx'. simpl. exact Ht.
+            split; auto. intros y [<-|Hy']; [|auto]. apply Jx'. exact Ht.
           * destruct HI as [[_ Hth]|[y [Hy' HJ]]].
-            -- subst th. right. exists x. split; [left; auto|]. apply Jx'. simpl. exact Ht.
-            -- right. exists y. split; auto. right; auto.
+            -- subst th. right. exists x. split; [left; auto|]. apply Jx'. exact Ht.
+            -- right. exists y. split; [right; auto|auto].
     Qed.
 
     (** all clauses of a node *)
@@ -223,12 +223,11 @@ Section Eval.
         (* the claims about this clause *)
         assert (Hct : forall th, tv th vc = true -> trusted th true s1 -> CLt th s1 mc t c).
         { intros th Htv Ht. specialize (Hcl th). rewrite Htv in Hcl. destruct (Hcl Ht) as [Ha Hall].
-          split; auto. unfold usable. destruct (snd c); simpl; auto. rewrite (Ha eq_refl). reflexivity. }
+          split; auto. unfold usable. destruct (snd c); [rewrite (Ha eq_refl); reflexivity | apply orb_true_r]. }
         assert (Hcf : forall th, tv th vc = false -> trusted th false s1 -> CLf th s1 mc t c).
         { intros th Htv Ht. specialize (Hcl th). rewrite Htv in Hcl. destruct (Hcl Ht) as [[Ha Hth]|Hex].
           - left. unfold usable. rewrite Ha, Hth. reflexivity.
           - right. auto. }
-        assert (Hacc1 : forall c', acc_ok t done cur m s -> True) by auto.
         destruct vc; simpl.
         + (* Yes: the loop ends *)
           split; auto. intros th Ht. simpl. exists c. split; [apply in_or_app; right; left; auto|].
@@ -250,8 +249,6 @@ Section Eval.
                 apply Hacc; auto. eapply trusted_ext; [apply (fr_ext _ _ _ _ _ F1)|]; auto.
               + apply Hcf; auto. }
           pose proof (IH (done ++ [c]) cur mc s1 (fr_wf _ _ _ _ _ F1) (fr_si _ _ _ _ _ F1) T1 Hr Hacc') as HI.
-          assert (Ecur : match combine cur No with Some Yes => False | _ => True end -> True) by auto.
-          assert (Hcomb : combine cur No = cur) by reflexivity.
           destruct cur as [[| |]|]; simpl in Hacc; try tauto; simpl;
             (destruct (eval_clauses sg r _ mc s1) as [[v m'] s'| |]; simpl in *; auto;
              destruct HI as [F2 HI]; split; [eapply frame_trans; eauto|];
